@@ -120,6 +120,22 @@ def model_binop(a, b, opname, sampling='min', method='linear', fill=0, live=(Non
     return {'grid': grid, 'value': value, 'mask': mask, 'ambiguous': ambiguous, 'unit': a.unit, 'vunit': a.vunit}
 
 
+def pointwise_mismatch(rm, exp):
+    """Result (MS) against the statement executed on the model (model_binop).  -> None or (what, detail)"""
+    if rm.unit != exp['unit'] or len(rm.wave) != exp['grid'].size or not np.allclose(rm.wave, exp['grid'], rtol=1e-12, atol=0):
+        return 'grid', 'result grid has %d points in %s, uniform union grid has %d' % (len(rm.wave), rm.unit, exp['grid'].size)
+    got = np.asarray(rm.value)[exp['mask']]
+    want = exp['value'][exp['mask']]
+    fin = np.isfinite(want)
+    bad = not np.array_equal(np.isfinite(got), fin)
+    if not bad and fin.any():
+        scale = max(np.max(np.abs(want[fin])), 1e-300)
+        bad = np.max(np.abs(got[fin] - want[fin])) > 1e-9 * scale
+    if bad:
+        return 'values', 'values %s, operator applied to interpolated operands gives %s' % (np.asarray(rm.value).tolist()[:8], exp['value'].tolist()[:8])
+    return None
+
+
 class ArithHooks(Hooks):
     prefix = 'C13'
     def __init__(self):
@@ -129,11 +145,13 @@ class ArithHooks(Hooks):
         self.results_canon = []
         self.touched = set()
         self.gen = {}          # '@id' -> number of content assignments so far (results before/after are different operands)
+        self.edited = set()    # '@id' of spectra whose samples their owner has overwritten (a law no longer describes them)
 
     def on_dirty(self, it, tid):
         # the owner wrote into the arrays of one of its spectra: new content, like an assignment (results before / after are
         # results of different operands)
         self.gen['@' + tid] = self.gen.get('@' + tid, 0) + 1
+        self.edited.add('@' + tid)
         it.fault('assign')
 
     def _snapshot(self, it):
@@ -171,7 +189,15 @@ class ArithHooks(Hooks):
                            '%s changed spectrum %s (%s -> %s, %d -> %d samples)' % (fn, k, m.unit, new[k].unit, len(m.wave), len(new[k].wave)), i)
         if fn == 'setattr' and out.ok:
             self.gen[ev['a'][0]] = self.gen.get(ev['a'][0], 0) + 1
+            self.edited.add(ev['a'][0])
             it.fault('assign')
+        if fn in ('Spectrum.copy', 'deepcopy') and ev.get('id') and ev['a'][0] in self.edited:
+            self.edited.add('@' + ev['id'])       # a copy of overwritten samples is a table of those samples, whatever its class
+        if fn == 'Spectrum.to' and out.ok and ev['a'][1] in DENSITY:
+            # a value-unit conversion: the numbers the operand holds change (earlier results are results of other numbers)
+            self.gen[ev['a'][0]] = self.gen.get(ev['a'][0], 0) + 1
+            it.probe('value_unit_converted')
+            it.fault('repr_change')
         if ev.get('t', {}).get('after_assign'):
             it.probe('op_repeated_after_assignment')
         if ev.get('t', {}).get('after_result_write'):
@@ -184,6 +210,29 @@ class ArithHooks(Hooks):
             it.probe('op_repeated_after_inplace_value_edit')
         if ev.get('id') and any(self.gen.get('@' + r, 0) for r in it.event_refs(ev)):
             self.touched.add(ev['id'])      # an operand's content was re-assigned by its owner before this call
+        if fn == 'churn.spectra':
+            it.probe('short_lived_operands')
+            it.probe('check:pointwise')
+            sref, op_, operands, left = ev['a'][0], ev['a'][1], ev['a'][2], ev['a'][3]
+            ms = self.snap.get(sref[1:])
+            if ms is None or not out.ok:
+                if not out.ok:
+                    it.violate('C13.pointwise', {'fn': fn, 'what': 'raised', 'exc': type(out.exc).__name__}, '%r' % (out.exc,), i)
+                return
+            for (wave, value, unit), res in zip(operands, out.value):
+                mt = MS(wave, value, unit, None)
+                pair = (mt, ms) if left else (ms, mt)
+                held = it.resolve(sref)
+                law = held if isinstance(held, L.radiometry.Blackbody) else None
+                exp = model_binop(pair[0], pair[1], op_, live=(None, law) if left else (law, None))
+                if exp['ambiguous']:
+                    continue
+                bad = ('raised', res) if isinstance(res, str) else pointwise_mismatch(MS(res[0], res[1], res[2], None), exp)
+                if bad:
+                    it.violate('C13.pointwise', {'fn': fn, 'what': 'short-lived-operands:' + bad[0]},
+                               'catalogue entry %s %s the held spectrum, built and dropped in a loop: %s' % (unit, op_, bad[1]), i)
+                    break
+            return
         if opname is None:
             return
         a_ref, b_ref = ev['a'][0], ev['a'][1]
@@ -238,6 +287,21 @@ class ArithHooks(Hooks):
             live = (a if isinstance(a, BB) else None, b if isinstance(b, BB) else None)
             if any(live):
                 it.probe('blackbody_operand')
+                # "each operand's interpolated value": for an operand that is a law, the law must describe the samples the operand
+                # currently holds (unit conversions included) -- judged unless the owner has overwritten the samples
+                for obj, m_, ref_ in zip(live, (ma, mb), (a_ref, b_ref)):
+                    if obj is None or ref_ in self.edited:
+                        continue
+                    it.probe('check:law_matches_samples')
+                    try:
+                        law = np.asarray(obj.sample(np.asarray(m_.wave), waveunit=m_.unit), dtype=float)
+                        bad = law.shape != np.shape(m_.value) or not np.allclose(law, m_.value, rtol=1e-9, atol=0)
+                    except Exception:       # noqa
+                        bad = True
+                    if bad:
+                        it.violate('C13.pointwise', {'fn': fn, 'what': 'law-not-the-current-values'},
+                                   '%s: the operand %s is sampled by a law that no longer gives the values it holds (%s, %s)'
+                                   % (fn, ref_, m_.unit, m_.vunit), i)
             exp = model_binop(ma, mb, opname, samp, k.get('method', 'linear'), k.get('fill_value', 0), live=live)
             if exp['ambiguous']:
                 it.probe('ambiguous_grid')
@@ -362,7 +426,7 @@ class SpectrumArithScenario(Scenario):
                    'operators (the statement speaks of "the fill value")']
     must_hit = ['pair:nm-nm', 'pair:nm-um', 'pair:angstrom-um', 'pair:m-nm', 'disjoint_ranges', 'sampling:left', 'sampling:right', 'sampling:float',
                 'op_repeated_after_to', 'commuted_pair', 'scalar_op', 'op_repeated_after_assignment', 'identity_scalar', 'ndarray_times_spectrum', 'blackbody_operand', 'op_repeated_after_result_write', 'operand_with_history', 'augmented_assignment_form', 'op_repeated_after_inplace_value_edit', 'material_product',
-                'material_product_after_result_edit']
+                'material_product_after_result_edit', 'short_lived_operands', 'value_unit_converted']
     probe_names = must_hit + ['coldwarm_audit', 'ambiguous_grid', 'pair:um-um', 'pair:angstrom-nm', 'pair:m-um', 'pair:angstrom-m']
 
     # ---------------------------------------------------------------- generation
@@ -488,6 +552,22 @@ class SpectrumArithScenario(Scenario):
                     e.get('k', {}).pop('method', None)
                     mine.append(e['id'])
                 continue
+            if r >= 0.095 and r < 0.115:
+                # a catalogue of filters tabulated with the same number of points, each combined once with a held spectrum and dropped
+                plain = [x for x in pool if x.get('vunit') is None] or pool
+                s0 = rng.choice(plain)
+                npt = rng.randint(3, 6)
+                cat = []
+                for _k in range(rng.randint(4, 8)):
+                    st = rng.choice([5.0, 10.0, 20.0])
+                    w0 = s0['wave_nm'][0] + rng.choice([-60, -20, 0, 15, 40, 150, 420]) + rng.choice([0, 0.3])
+                    wv = [w0 + st * j for j in range(npt)]
+                    wv[-1] += 0.37 * st
+                    u = rng.choice(['nm', 'nm', 'um', 'm'])
+                    cat.append([[x * factor('nm', u) for x in wv], [round(rng.uniform(0.2, 2.0), 3) for _ in wv], u])
+                prog.append({'c': c, 'fn': 'churn.spectra', 'a': ['@' + s0['id'], rng.choice(['add', 'multiply', 'subtract']), cat, rng.random() < 0.5],
+                             'id': nid('churn')})
+                continue
             if r < 0.035 + 0.06:
                 # a Material hands out contam * transmission and contam * emission: products like any other -- new spectra, computed
                 # from the operands as they are now -- however often they are asked for and whatever the caller did with the last one
@@ -577,10 +657,17 @@ class SpectrumArithScenario(Scenario):
                       t={'expect': 'refuse', 'why': 'operand-type'})
             elif r < 0.68 and c == 0:
                 s = rng.choice(pool)
-                unit = rng.choice([u for u in ('nm', 'um', 'angstrom', 'm') if u != s['unit']])
-                e = {'c': c, 'fn': 'Spectrum.to', 'a': ['@' + s['id'], unit], 'id': nid('to'), 'inplace': ['@' + s['id']], 't': {'repr': True}}
-                prog.append(e)
-                s['unit'] = unit
+                if s.get('vunit') in DENSITY and rng.random() < 0.3:
+                    # the other kind of representation change: the value unit of a flux density
+                    unit = rng.choice([u for u in ('photlam', 'wlam', 'flam') if u != s['vunit']])
+                    e = {'c': c, 'fn': 'Spectrum.to', 'a': ['@' + s['id'], unit], 'id': nid('to'), 'inplace': ['@' + s['id']], 't': {'repr': True, 'value_unit': True}}
+                    prog.append(e)
+                    s['vunit'] = unit
+                else:
+                    unit = rng.choice([u for u in ('nm', 'um', 'angstrom', 'm') if u != s['unit']])
+                    e = {'c': c, 'fn': 'Spectrum.to', 'a': ['@' + s['id'], unit], 'id': nid('to'), 'inplace': ['@' + s['id']], 't': {'repr': True}}
+                    prog.append(e)
+                    s['unit'] = unit
                 # and repeat an earlier operation on that spectrum right away (F6 across a representation change)
                 earlier = [x for x in prog if 'fn' in x and op_of(x['fn']) and ('@' + s['id']) in x['a'] and x.get('t', {}).get('expect') == 'ok'
                            and all(isinstance(y, str) for y in x['a']) and not isinstance(x.get('k', {}).get('sampling'), float)]
@@ -675,6 +762,13 @@ class SpectrumArithScenario(Scenario):
             for opname in OPS:
                 E('Spectrum.' + opname, ['@S0', '@S1'])
             E('Spectrum.multiply', ['@BB', '@S0'])
+            events.append({'c': 0, 'fn': 'Spectrum.to', 'a': ['@BB', 'wlam'], 'id': 'bbto', 'inplace': ['@BB'], 't': {'repr': True, 'value_unit': True}})
+            E('Spectrum.multiply', ['@BB', '@S0'])
+            E('Spectrum.multiply', ['@S0', '@BB'])
+            cat = [[[(400 + 37 * q + 10 * j + (0.37 if j == 4 else 0)) * factor('nm', u) for j in range(5)], [0.5 + 0.1 * j + 0.01 * q for j in range(5)], u]
+                   for q, u in enumerate(['nm', 'um', 'nm', 'm', 'um', 'nm', 'nm', 'um'])]
+            events.append({'c': 0, 'fn': 'churn.spectra', 'a': ['@S0', 'multiply', cat, False], 'id': 'churn1'})
+            events.append({'c': 0, 'fn': 'churn.spectra', 'a': ['@S1', 'add', cat, True], 'id': 'churn2'})
             E('Spectrum.add', ['@BB', '@S0'], {'fill_value': 0})
             for samp in ('left', 'right', 1.7 * f0):
                 E('Spectrum.add', ['@S0', '@S1'], {'sampling': samp})
